@@ -263,7 +263,7 @@ func vfC17(w *vfWorld) {
 		// upstream answer / fault
 		fault := ""
 		if t.Prob("c17.fault", 80) {
-			fault = vfPick(t, "c17.faultkind", []string{"reset", "hang", "refuse"})
+			fault = vfPick(t, "c17.faultkind", []string{"reset", "hang", "refuse", "cut", "cut"})
 		}
 		rstatus := vfPick(t, "c17.rstatus", []int{200, 200, 201, 204, 301, 302, 304, 400, 401, 403, 404, 418, 500, 503})
 		rbodyLen := vfPick(t, "c17.rbody", []int{0, 5, 1000, 70000})
@@ -281,7 +281,10 @@ func vfC17(w *vfWorld) {
 		if t.Bool("c17.rh3") {
 			rhdrs = append(rhdrs, [2]string{"Www-Authenticate", "Basic realm=\"up\""}, [2]string{"Etag", "\"v1\""})
 		}
-		reply = &vfUpReply{Status: rstatus, Headers: rhdrs, Body: rbody, Fault: map[string]string{"reset": "reset", "hang": "hang"}[fault], Early: t.Prob("c17.early-hints", 120)}
+		if fault == "cut" && rbodyLen < 1000 {
+			fault = "reset" // nothing to cut
+		}
+		reply = &vfUpReply{Status: rstatus, Headers: rhdrs, Body: rbody, Fault: map[string]string{"reset": "reset", "hang": "hang", "cut": "cut"}[fault], Early: t.Prob("c17.early-hints", 120)}
 		rule, judged := route(path)
 		if !judged {
 			w.probe("c17:raw-path-routing-of-invalid-encoding-not-judged")
@@ -361,6 +364,14 @@ func vfC17(w *vfWorld) {
 		if fault != "" {
 			cs.Faults++
 			w.fault("upstream:" + fault)
+			if fault == "cut" && rule != nil && !rule.Static && rule.File == "" {
+				// the upstream's answer broke off in the middle of its body: the client must be able to tell (the connection is
+				// aborted) - half a body presented as a complete response is not "relayed unchanged"
+				if !r.Aborted && !bytes.Equal(r.Body, rbody) {
+					w.violate("C17", "truncated-body-presented-as-complete", "", "%s: the upstream's connection broke after %d of %d body bytes; the client got status %d with %d bytes as a complete response", label, len(rbody)/2, len(rbody), r.Status, len(r.Body))
+				}
+				continue
+			}
 			if fault != "reset" && len(r.UpHits) > 0 && fault != "hang" {
 				w.violate("C17", "fault-handling", fault, "%s: upstream %s but a hit was logged", label, fault)
 			}
